@@ -15,7 +15,8 @@ out = [head7, "",
        "Every property additionally runs the two shared rules over the files it is "
        "anchored in (and what they call): `<ID>-RM` memoisation depends on its "
        "arguments only (`memo.py`), `<ID>-RN` optional (None-default) parameters "
-       "are never dereferenced unguarded (`nonedefault.py`).", ""]
+       "are never dereferenced unguarded (`nonedefault.py`), `<ID>-RE` broad "
+       "exception handlers re-raise on every path (`swallow.py`).", ""]
 for i in range(1, 21):
     pid = f"C{i:02d}"
     m = importlib.import_module(f"nanite_sa.props.{pid.lower()}")
